@@ -173,6 +173,7 @@ type FnVC struct {
 	nonNilAt map[string][]*ssa.BasicBlock
 	nonNilGlobals []string
 	usedNonNil map[*ssa.Global]bool
+	usedMapNonNil map[*ssa.Global]bool
 	useKeys  bool // the contract speaks about keys(xs): emit the element-set facts
 	faComps  map[string]faInfo // field components whose address escaped as a pointer term
 	faOrder  []string
@@ -202,7 +203,7 @@ func newFnVC(p *Prog, fn *ssa.Function, fc *FuncContract, id string) *FnVC {
 		vals: map[ssa.Value]Val{}, reach: map[*ssa.BasicBlock]string{}, out: map[*ssa.BasicBlock]*State{},
 		compSort: map[string]string{}, params: map[string]Val{}, freshRef: map[string]bool{},
 		loops: map[*ssa.BasicBlock]*loopInfo{}, backEdge: map[[2]*ssa.BasicBlock]bool{}, oblNames: map[string]int{},
-		rangeSeen: map[*ssa.Range]string{}, unmodelled: map[string]bool{}, constCapture: map[ssa.Value]TV{}, keyTerms: map[string][]string{}, faComps: map[string]faInfo{}, usedNonNil: map[*ssa.Global]bool{}, nonNilAt: map[string][]*ssa.BasicBlock{}, axiomDone: map[string]bool{}, compValType: map[string]types.Type{}}
+		rangeSeen: map[*ssa.Range]string{}, unmodelled: map[string]bool{}, constCapture: map[ssa.Value]TV{}, keyTerms: map[string][]string{}, faComps: map[string]faInfo{}, usedNonNil: map[*ssa.Global]bool{}, usedMapNonNil: map[*ssa.Global]bool{}, nonNilAt: map[string][]*ssa.BasicBlock{}, axiomDone: map[string]bool{}, compValType: map[string]types.Type{}}
 	if fn.Pkg != nil {
 		vc.pkg = fn.Pkg.Pkg
 	} else if fn.Parent() != nil && fn.Parent().Pkg != nil {
